@@ -57,7 +57,7 @@ CLAIMED = {
             "series (grid supply = -connector power, station columns and their sum, fixed load, generation, battery power "
             "and energy, occupied stations), header/row alignment for every component-presence combination, the SoC series "
             "and the window-column round trip are Lean theorems about the model of report.py; of the aggregates the energy "
-            "sums, window energies, averages, peaks and battery cycles are proved (C18_aggregates_partial: standing-time "
+            "sums, window energies, averages, peaks and battery cycles are proved (C18_aggregates: standing-time "
             "aggregates and flex averages only by correspondence). Real generate_reports output for all 128 output-option "
             "combinations, completed and aborted runs, is parsed back and compared cell by cell with the model (exact "
             "rounding on the floats' binary values); post-hoc cost calculation from the written files is compared with the "
@@ -203,7 +203,7 @@ CLAIMED = {
             "series (grid supply = -connector power, station columns and their sum, fixed load, generation, battery power "
             "and energy, occupied stations), header/row alignment for every component-presence combination, the SoC series "
             "and the window-column round trip are Lean theorems about the model of report.py; of the aggregates the energy "
-            "sums, window energies, averages, peaks and battery cycles are proved (C18_aggregates_partial: standing-time "
+            "sums, window energies, averages, peaks and battery cycles are proved (C18_aggregates: standing-time "
             "aggregates and flex averages only by correspondence). Real generate_reports output for all 128 output-option "
             "combinations, completed and aborted runs, is parsed back and compared cell by cell with the model (exact "
             "rounding on the floats' binary values); post-hoc cost calculation from the written files is compared with the "
@@ -380,7 +380,7 @@ CLAIMED = {
             "series (grid supply = -connector power, station columns and their sum, fixed load, generation, battery power "
             "and energy, occupied stations), header/row alignment for every component-presence combination, the SoC series "
             "and the window-column round trip are Lean theorems about the model of report.py; of the aggregates the energy "
-            "sums, window energies, averages, peaks and battery cycles are proved (C18_aggregates_partial: standing-time "
+            "sums, window energies, averages, peaks and battery cycles are proved (C18_aggregates: standing-time "
             "aggregates and flex averages only by correspondence). Real generate_reports output for all 128 output-option "
             "combinations, completed and aborted runs, is parsed back and compared cell by cell with the model (exact "
             "rounding on the floats' binary values); post-hoc cost calculation from the written files is compared with the "
